@@ -226,6 +226,13 @@ func fault(x *hx.Ctx, n, t int, kind string) {
 		p2.SessionID = append([]byte{}, good.SessionID...)
 		resign(p2, w.ps[other].priv)
 		x.Err("partial of another session relabelled", d.ProcessPartialSig(p2))
+		// the right value announced under a foreign session identifier (authenticated by the insider)
+		bad.SessionID[0] ^= 1
+		resign(bad, w.ps[other].priv)
+		x.Err("partial labelled with another session id", d.ProcessPartialSig(bad))
+		bad.SessionID = nil
+		resign(bad, w.ps[other].priv)
+		x.Err("partial without session id", d.ProcessPartialSig(bad))
 	case "other-msg":
 		d2 := w.newDSS(x, other, []byte("another message"))
 		p2, err := d2.PartialSig()
